@@ -69,10 +69,12 @@ def register(claim):
           "Lean 4 theorem for the # operator: for EVERY argument that is a sequence of well-lexed tokens, the model of CPPManifest::stringify yields "
           "'\"' + body + '\"' whose body, with the escapes \\\\ and \\\" undone, is exactly the argument (c08_stringify_roundtrip, by induction over the "
           "character loop with the quoting automaton as invariant) — an escaped quote never ends the literal early; the termination measure of the "
-          "ignore-set recursion is c15_expand_measure. The stringify model is tied to parse_file -E on generated arguments; whole macro programs from a "
+          "ignore-set recursion is c15_expand_measure. One level of expansion (save_expansion + r_expand) is modelled: string and character literals "
+          "in a macro body are opaque to parameter substitution, # and ## (c08_literal_opaque, c08_literal_body), and #param is stringify(argument) "
+          "(c08_stringify_param). Both models are tied to parse_file -E on generated arguments and single-macro programs; whole macro programs from a "
           "feature grammar (object-/function-like, nested, multi-line, empty and parenthesised-comma arguments, #, ##, __VA_ARGS__, ', ## __VA_ARGS__', "
           "__VA_OPT__, #undef/redefinition, push/pop_macro) are compared token by token with gcc -E.",
-          "Partial: conformance of r_expand / argument collection / rescanning is explored against gcc per run, not proved. Two known findings (no hide "
+          "Partial: conformance of argument collection / rescanning / __VA_OPT__ is explored against gcc per run, not proved. Two known findings (no hide "
           "sets: re-expansion of an exempted token; white space inside # results).",
           "Lean 4 proof (# round trip) + differential correspondence + gcc -E oracle (exploration)", "DESIGN.md §5 C08")
     claim("C04",
@@ -138,7 +140,9 @@ def register(claim):
           "Partial: closure preservation is tied by correspondence, not yet a Lean theorem; agreement of C signature text is a compile check (exploration).",
           "Lean 4 proof (consecutive renumbering) + regenerated index/remap member facts + differential correspondence", "DESIGN.md §5 C11")
     claim("C13",
-          "Lean 4 theorems: global-ness of a merged type is the union, the fully defined definition wins in either order (merge_with), compiled-in "
+          "Lean 4 theorems: global-ness of a merged type is the union, the fully defined definition wins in either order (merge_with), and for ANY "
+          "number of libraries of which one defines a type and the others only refer to it, merging their records in any two orders gives the same "
+          "record (c13_merge_order_independent; the flag facts it needs are decided on the values extracted from the headers); compiled-in "
           "modules and database files each receive their own contiguous index range, and for every history of requests/lookups/queries each lookup "
           "first loads all pending files and answers from the current maps (cache invariant by induction). merge_from itself is modelled verbatim and "
           "tied to the real library over every load order of generated library sets, with lookups interleaved.",
@@ -147,13 +151,16 @@ def register(claim):
           "Lean 4 proof (merge_with flag algebra, cache invariant) + differential correspondence over all load orders", "DESIGN.md §5 C13")
     claim("C16",
           "Lean 4 theorems over a verbatim model of the ordering loop of write_python_table_native (std::map/std::set as ascending lists, the "
-          "pruning pass, the path-based cycle search with operator[] insertions, the edge-breaking step): for EVERY dependency graph the emitted "
-          "list has no duplicate (c16_each_once) and every dependency not reported broken is initialised before its dependent "
-          "(c16_unbroken_respected), proved by a loop invariant for any fuel. The model is tied to the real interrogate_module on all digraphs "
-          "over 3 libraries (4 in the thorough tier) and random ones up to 6, in several command-line orders.",
-          "Partial: termination and 'only cycle edges are broken' are checked per explored graph, not proved. The derivation of the graph from the "
-          "loaded databases is not modelled (the intended graph is given to the model).",
-          "Lean 4 proof (loop invariant over the ordering algorithm) + differential correspondence on all small digraphs", "DESIGN.md §5 C16")
+          "pruning pass, the cycle search with its visited set and operator[] insertions, the edge-breaking step): for EVERY dependency graph the "
+          "emitted list has no duplicate (c16_each_once), contains every library of the map (c16_all_emitted), every dependency not reported broken "
+          "is initialised before its dependent (c16_unbroken_respected), every broken dependency lies on a cycle of the graph "
+          "(c16_broken_on_cycle; acyclic graphs are ordered topologically with nothing broken), and the loop terminates (c16_terminates: a measure "
+          "decreases every round, and after a pass without progress the first descent of the search finds a cycle or a missing key). The model is "
+          "tied to the real interrogate_module on all digraphs over 3 libraries (4 thorough), random ones up to 6, and densely layered graphs of "
+          "34-60 libraries with cycles (on which the pre-fix exponential search never returns), in several command-line orders; load failures in "
+          "every position must give a non-zero exit and no output.",
+          "The derivation of the graph from the loaded databases is not modelled (databases realising a given graph are given to the real tool).",
+          "Lean 4 proof (loop invariants, termination measure, cycle soundness of the ordering algorithm) + differential correspondence", "DESIGN.md §5 C16")
     claim("C19",
           "Lean 4 theorem: a stream protocol accepted by the syntactic check `wellChecked` turns, under EVERY fault schedule (which open / buffer "
           "flush / close fails and when the buffer happens to be flushed), lost output into a non-zero exit (wellChecked_sound, by an abstraction "
@@ -170,9 +177,12 @@ def register(claim):
           "and it can never return a different integer (c07_eval, c07_never_wrong; structural induction). The integer branch of every case of the "
           "operator switch, the bison precedence/associativity table and the operator productions of all three grammar copies are re-extracted on "
           "every run and decided by the kernel. Integer literals: a decimal / hexadecimal / binary literal with digit separators anywhere is recorded "
-          "with the positional value of its digits (c07_literal, over a model of get_number). Values recorded in real databases are compared with the models and with g++.",
-          "Partial: character literals, implicit enumerator increment and the LALR parse of minimally parenthesised text are covered by correspondence "
-          "and the g++ oracle only. Real/pointer-valued sub-expressions are outside the model.",
+          "with the positional value of its digits (c07_literal, over a model of get_number); narrow character literals — ordinary characters, the whole "
+          "simple-escape table, octal escapes of 1-3 digits, hex escapes of any length — have their C++ value (c07_char_*, over a model of "
+          "scan_escape_sequence); enumerators without initialiser get the previous value plus one whatever expression shapes add_element builds "
+          "(c07_enum_increment). Values recorded in real databases are compared with the models and with g++.",
+          "Partial: the LALR parse of minimally parenthesised text is covered by correspondence and the g++ oracle only; wide / multi-character "
+          "literals and real/pointer-valued sub-expressions are outside the model.",
           "Lean 4 proof (evaluator refines C++ integer semantics) + extracted operator/precedence facts + differential correspondence with g++ oracle", "DESIGN.md §5 C07")
     claim("C09",
           "Lean 4 theorem (mutual structural induction, no bound on depth or length): on EVERY well-nested program of #if/#ifdef/#ifndef/#elif/"
@@ -180,9 +190,11 @@ def register(claim):
           "(process_directive + skip_false_if_block, modelled verbatim) keeps exactly the markers and performs exactly the effects of the nested-group "
           "semantics: first true condition wins, at most one group, skipped groups have no effect (c09_refines, c09_skipped_no_effect). The dispatch "
           "tables of both functions are re-extracted on every run and decided by the kernel. parse_file -E is compared with the Lean machine and "
-          "with gcc -E on all small programs and random deep ones.",
-          "How directive lines are found inside skipped text (comments, strings) is outside the model and covered by the gcc comparison only. "
-          "Conditions are the C07 expressions; macro bodies are integer literals or single identifiers.",
+          "with gcc -E on all small programs and random deep ones. A second, character-level model of skip_false_if_block (comments, string and "
+          "character literals, null directives, continuations) carries the theorems that text inside a string literal or block comment of a skipped "
+          "group cannot change where the group ends (c09_string_text_irrelevant, c09_comment_text_irrelevant); it is tied to parse_file -E on generated skipped texts.",
+          "That the directive lines found by the character-level scanner are the lines of the directive-level machine is tied by correspondence, not proved; "
+          "active text is lexed by the ordinary tokenizer (not modelled). Conditions are the C07 expressions; macro bodies are integer literals or single identifiers.",
           "Lean 4 proof (refinement of tree semantics by the stack-free machine) + extracted dispatch tables + differential correspondence with gcc oracle", "DESIGN.md §5 C09")
     claim("C17",
           "Lean 4 theorems over a verbatim model of the component loop of Filename::standardize: idempotent on EVERY path, and in any directory "
